@@ -56,9 +56,6 @@ Tgt4(tb) == <<4 * tb[1], 4 * tb[2]>>
 \* ------------------------------------------------------------------ the other spectral unit
 \* nu_i = X0 + cs[i];  lambda_i = K / nu_i with K the product of all nu_j (so that every lambda_i is an integer)
 NuZero == 8
-RECURSIVE EagerR(_, _)
-EagerR(s, k) == IF k = 0 THEN <<>> ELSE Append(EagerR(s, k - 1), s[k])
-Eager(s) == EagerR(s, Len(s))     \* TLC keeps [i \in S |-> e] unevaluated; towers of such functions are re-evaluated on every access
 RECURSIVE IProd(_)
 IProd(s) == IF s = <<>> THEN 1 ELSE Head(s) * IProd(Tail(s))
 Recip(cs, X0) == LET nu == Eager([i \in 1..Len(cs) |-> X0 + cs[i]])  K == IProd(nu) IN Eager([i \in 1..Len(cs) |-> K \div nu[i]])
